@@ -36,6 +36,14 @@ static inline bool size_mul_overflow(size_t a, size_t b, size_t *result) {
 }
 
 /* Internal comparison function for qsort */
+/* Bounded tagged read for the decoders: never touches a byte at or beyond
+ * 'end'; returns 0 when the varint is cut short by the end of the buffer. */
+static inline varintWidth dictGetBounded(const uint8_t *ptr, const uint8_t *end,
+                                         uint64_t *value) {
+    const size_t remaining = (size_t)(end - ptr);
+    return varintTaggedGet(ptr, remaining > 9 ? 9 : (int32_t)remaining, value);
+}
+
 static int compareUint64(const void *a, const void *b) {
     uint64_t va = *(const uint64_t *)a;
     uint64_t vb = *(const uint64_t *)b;
@@ -234,8 +242,8 @@ uint64_t *varintDictDecode(const uint8_t *buffer, size_t bufferLen,
 
     /* Read dictionary size */
     uint64_t dictSize64;
-    varintWidth w = varintTaggedGet64(ptr, &dictSize64);
-    if (w == 0 || ptr + w > end) {
+    varintWidth w = dictGetBounded(ptr, end, &dictSize64);
+    if (w == 0) {
         return NULL;
     }
     ptr += w;
@@ -259,8 +267,8 @@ uint64_t *varintDictDecode(const uint8_t *buffer, size_t bufferLen,
     }
 
     for (uint32_t i = 0; i < dictSize; i++) {
-        w = varintTaggedGet64(ptr, &dictValues[i]);
-        if (w == 0 || ptr + w > end) {
+        w = dictGetBounded(ptr, end, &dictValues[i]);
+        if (w == 0) {
             free(dictValues);
             return NULL;
         }
@@ -269,8 +277,8 @@ uint64_t *varintDictDecode(const uint8_t *buffer, size_t bufferLen,
 
     /* Read count */
     uint64_t count64;
-    w = varintTaggedGet64(ptr, &count64);
-    if (w == 0 || ptr + w > end) {
+    w = dictGetBounded(ptr, end, &count64);
+    if (w == 0) {
         free(dictValues);
         return NULL;
     }
@@ -287,7 +295,7 @@ uint64_t *varintDictDecode(const uint8_t *buffer, size_t bufferLen,
     }
 
     /* Check if we have enough buffer for indices */
-    if (ptr + (count * indexWidth) > end) {
+    if (count > (size_t)(end - ptr) / indexWidth) {
         free(dictValues);
         return NULL;
     }
@@ -328,8 +336,8 @@ size_t varintDictDecodeInto(const uint8_t *buffer, size_t bufferLen,
 
     /* Read dictionary size */
     uint64_t dictSize64;
-    varintWidth w = varintTaggedGet64(ptr, &dictSize64);
-    if (w == 0 || ptr + w > end) {
+    varintWidth w = dictGetBounded(ptr, end, &dictSize64);
+    if (w == 0) {
         return 0;
     }
     ptr += w;
@@ -353,8 +361,8 @@ size_t varintDictDecodeInto(const uint8_t *buffer, size_t bufferLen,
     }
 
     for (uint32_t i = 0; i < dictSize; i++) {
-        w = varintTaggedGet64(ptr, &dictValues[i]);
-        if (w == 0 || ptr + w > end) {
+        w = dictGetBounded(ptr, end, &dictValues[i]);
+        if (w == 0) {
             free(dictValues);
             return 0;
         }
@@ -363,8 +371,8 @@ size_t varintDictDecodeInto(const uint8_t *buffer, size_t bufferLen,
 
     /* Read count */
     uint64_t count64;
-    w = varintTaggedGet64(ptr, &count64);
-    if (w == 0 || ptr + w > end) {
+    w = dictGetBounded(ptr, end, &count64);
+    if (w == 0) {
         free(dictValues);
         return 0;
     }
@@ -387,7 +395,7 @@ size_t varintDictDecodeInto(const uint8_t *buffer, size_t bufferLen,
     }
 
     /* Check buffer bounds */
-    if (ptr + (count * indexWidth) > end) {
+    if (count > (size_t)(end - ptr) / indexWidth) {
         free(dictValues);
         return 0;
     }
